@@ -11,6 +11,9 @@ import (
 
 func main() {
 	args := mon.ParseArgs()
+	if args.Rest["mode"] == "idleburst" {
+		idleBurstMain(args) // C08, C12
+	}
 	if args.Rest["mode"] == "names" {
 		cacheNamesMain(args) // C10, C11
 	}
